@@ -76,7 +76,8 @@ class P(Prop):
             "0..300 segments): the serde data-model calls of derive(Serialize) (recorded by a token-stream Serializer) and the borsh "
             "bytes are compared with the Coq wire model; round trips through serde_json text (finite contents), serde_cbor and borsh "
             "are executed on the crate and compared bit for bit; contents: subnormals, -0.0, extremes, +-inf (binary formats), random "
-            "bit patterns. non-trivial = contains a number whose bits are not those of a small integer; distinct by input")
+            "bit patterns; every type once with +-inf in every position and once with +-f64::MAX / its neighbour / smallest subnormal / "
+            "-0.0 in every position. non-trivial = contains a number whose bits are not those of a small integer; distinct by input")
     TRUSTED = ["wire model (shapes of the derives) hand-written, tied by correspondence; the theorem covers the borsh byte codec",
                "float <-> text conversion (ryu, serde_json parser) and serde_cbor are exercised, not modelled"]
     ASSUMPTIONS = ["without the borsh feature only the serde part applies; the harness builds the crate with the feature on"]
@@ -104,12 +105,23 @@ class P(Prop):
             for _ in range(per):
                 fin = rng.random() < 0.6
                 out.append(dict(op="wire", ty=ty, v=[self.num(rng, fin) for _ in range(n)], meta={"class": "value/" + ty.split("<")[0]}))
+            # every type once with infinities in every position (binary formats), once with the finite extremes (all formats)
+            INF = [C.bits(float("inf")), C.bits(float("-inf"))]
+            EXT = [C.bits(1.7976931348623157e308), C.bits(-1.7976931348623157e308), C.bits(5e-324), C.bits(-0.0),
+                   C.bits(2.2250738585072014e-308), C.bits(1.7976931348623155e308)]
+            out.append(dict(op="wire", ty=ty, v=[rng.choice(INF) for _ in range(n)], meta={"class": "value_inf/" + ty.split("<")[0]}))
+            out.append(dict(op="wire", ty=ty, v=[rng.choice(EXT) for _ in range(n)], meta={"class": "value_extreme/" + ty.split("<")[0]}))
         for _ in range(40 if tier == "quick" else 500):
             t = rng.choice(G.ALL_TYPES)
             n = G.arity(t) + 1
             cnt = rng.choice([0, 1, 2, 3, 5, 8, rng.randint(0, 30), rng.choice([52, 103, 171, 257, 300])])
             fin = rng.random() < 0.6
             segs = [[self.num(rng, fin) for _ in range(n)] for _ in range(cnt)]
+            if cnt and rng.random() < 0.3:
+                pool = EXT if fin else EXT + INF
+                for sgm in segs:
+                    if rng.random() < 0.5:
+                        sgm[rng.randrange(n)] = rng.choice(pool)
             out.append(dict(op="wire", ty="Piecewise<%s>" % t, segs=segs, meta={"class": "piecewise/%s" % ("long" if cnt > 50 else "short")}))
         return out
 
